@@ -1,15 +1,15 @@
 #!/bin/sh
-# seed_matrix.sh : run every seeded change against its property's quick check, three scratch worktrees of /repo HEAD in
+# seed_matrix.sh : run every seeded change against its property's quick check, five scratch worktrees of /repo HEAD in
 # parallel (ONSAGER_REPO), append to seeded/RESULTS.tsv.  /repo itself is never modified.
 cd /verif
 HEAD=$(git -C /repo rev-parse --short HEAD)
 ls seeded | grep -v RESULTS | while read s; do grep -q "\"retired\": true" seeded/$s/meta.json || echo $s; done > /tmp/seedlist.txt
 n=0
-for w in dev dev2 dev3; do
+for w in dev dev2 dev3 dev4 dev5; do
   WT=/tmp/wt/$w
   [ -d $WT ] || git -C /repo worktree add -q --detach $WT HEAD
   git -C $WT checkout -q -- . ; git -C $WT checkout -q --detach $HEAD
-  ( awk "NR % 3 == $n" /tmp/seedlist.txt | while read s; do
+  ( awk "NR % 5 == $n" /tmp/seedlist.txt | while read s; do
       out=$(DEVWT=$WT tools/seed_dev.sh $s 2>&1 | head -1)
       echo "$out	base=$HEAD" >> seeded/RESULTS.tsv
     done ) &
